@@ -74,6 +74,69 @@ def _merge_branch_assigns(n):
     return n
 
 
+def _is_incr_of(st, var):
+    """Is statement `st` an increment by one of the plain variable `var` (v++, ++v, v += 1, v = v + 1)?"""
+    st = strip(st) if isinstance(st, dict) else st
+    if not isinstance(st, dict):
+        return False
+    k = st.get('kind')
+    if k == 'UnaryOperator' and st.get('opcode') == '++':
+        return unparen(S(st['inner'][0])) == var
+    if k == 'CompoundAssignOperator' and st.get('opcode') == '+=':
+        return unparen(S(st['inner'][0])) == var and unparen(S(st['inner'][1])) == '1'
+    if k == 'BinaryOperator' and st.get('opcode') == '=' and unparen(S(st['inner'][0])) == var:
+        r = unparen(S(st['inner'][1])).replace(' ', '')
+        return r in ('%s+1' % var, '1+%s' % var)
+    return False
+
+
+def _assigns_var(n, var):
+    for x in _walk_nodes(n):
+        k = x.get('kind')
+        if k in ('BinaryOperator', 'CompoundAssignOperator') and x.get('opcode', '').endswith('=') and x.get('opcode') not in ('==', '!=', '<=', '>=') \
+                and unparen(S(x['inner'][0])) == var:
+            return True
+        if k == 'UnaryOperator' and x.get('opcode') in ('++', '--') and unparen(S(x['inner'][0])) == var:
+            return True
+    return False
+
+
+def _while_to_for(n):
+    """`v = lo; while(v < hi) { body; v += 1; }`  ->  `for(v = lo; v < hi; v += 1) { body }` when the body neither assigns v
+    elsewhere nor contains `continue` (which would skip the increment of the while form)."""
+    if not isinstance(n, dict):
+        return n
+    if n.get('inner'):
+        n = dict(n)
+        n['inner'] = [_while_to_for(c) for c in n['inner']]
+    if n.get('kind') != 'CompoundStmt':
+        return n
+    out = []
+    for st in n.get('inner', []):
+        prev = out[-1] if out else None
+        if isinstance(st, dict) and st.get('kind') == 'WhileStmt' and isinstance(prev, dict) and prev.get('kind') == 'BinaryOperator' \
+                and prev.get('opcode') == '=' and strip(prev['inner'][0]).get('kind') == 'DeclRefExpr':
+            var = unparen(S(prev['inner'][0]))
+            cond, body = st['inner'][0], st['inner'][1]
+            c = strip(cond)
+            stmts = body.get('inner', []) if isinstance(body, dict) and body.get('kind') == 'CompoundStmt' else None
+            if stmts and c.get('kind') == 'BinaryOperator' and c.get('opcode') in ('<', '<=', '!=') and unparen(S(c['inner'][0])) == var \
+                    and _is_incr_of(stmts[-1], var) and not any(_assigns_var(x, var) for x in stmts[:-1]) \
+                    and not any(x.get('kind') == 'ContinueStmt' for s_ in stmts[:-1] for x in _walk_nodes(s_)):
+                nb = dict(body)
+                nb['inner'] = stmts[:-1]
+                f = dict(kind='ForStmt', inner=[prev, {}, cond, stmts[-1], nb])
+                for key in ('range', 'loc'):
+                    if key in st:
+                        f[key] = st[key]
+                out[-1] = f
+                continue
+        out.append(st)
+    n = dict(n)
+    n['inner'] = out
+    return n
+
+
 def strip(n):
     while isinstance(n, dict) and n.get('kind') in PASS and n.get('inner'):
         n = n['inner'][-1]
@@ -306,8 +369,69 @@ class CFunc:
         self.globals_used = set()
         self._cur = self.line
         self.named = {}       # local -> init node, for locals declared with an initialiser and never re-assigned
+        self.body = _while_to_for(self.body)
+        self._collect_named(self.body)
+        self.body = self._canon_pointers(self.body)
+        self.named = {}
         self._collect_named(self.body)
         self._walk(self.body, [], [])
+
+    def _is_ptr(self, n):
+        n0 = strip(n)
+        if not isinstance(n0, dict):
+            return False
+        t = (n0.get('type') or {}).get('qualType', '')
+        if '*' in t or '[' in t:
+            return True
+        if n0.get('kind') == 'DeclRefExpr':
+            return '*' in (self.ptype(n0['referencedDecl'].get('name')) or '')
+        return False
+
+    def _split_ptr_add(self, n, depth=3):
+        """(pointer node, offset node) when n is `p + off`, `off + p`, `&p[off]` or a named local holding one of these."""
+        n0 = strip(n)
+        if not isinstance(n0, dict) or depth <= 0:
+            return None
+        if n0.get('kind') == 'BinaryOperator' and n0.get('opcode') == '+':
+            a, b = n0['inner']
+            if self._is_ptr(a) and not self._is_ptr(b):
+                return a, b
+            if self._is_ptr(b) and not self._is_ptr(a):
+                return b, a
+        if n0.get('kind') == 'UnaryOperator' and n0.get('opcode') == '&':
+            x = strip(n0['inner'][0])
+            if x.get('kind') == 'ArraySubscriptExpr':
+                return x['inner'][0], x['inner'][1]
+        if n0.get('kind') == 'DeclRefExpr' and n0['referencedDecl'].get('name') in self.named:
+            return self._split_ptr_add(self.named[n0['referencedDecl']['name']], depth - 1)
+        return None
+
+    def _canon_pointers(self, n):
+        """Pointer arithmetic in subscript form: `*(p + i)` -> `p[i]`, `(p + off)[j]` / `q[j]` with `q = p + off` (a local
+        that only names that address) -> `p[off + j]`.  The rules then see one spelling of every element access."""
+        if not isinstance(n, dict):
+            return n
+        if n.get('inner'):
+            n = dict(n)
+            n['inner'] = [self._canon_pointers(c) for c in n['inner']]
+        k = n.get('kind')
+        if k == 'ArraySubscriptExpr':
+            b, i = n['inner']
+            sp = self._split_ptr_add(b)
+            if sp:
+                m = dict(n)
+                m['inner'] = [sp[0], dict(kind='BinaryOperator', opcode='+', inner=[dict(kind='ParenExpr', inner=[sp[1]]), i],
+                                          type=(strip(i).get('type') or {'qualType': 'long'}))]
+                return self._canon_pointers(m) if self._split_ptr_add(sp[0]) else m
+        if k == 'UnaryOperator' and n.get('opcode') == '*':
+            sp = self._split_ptr_add(n['inner'][0])
+            if sp:
+                m = dict(kind='ArraySubscriptExpr', inner=[sp[0], sp[1]])
+                for key in ('type', 'range', 'loc', 'valueCategory'):
+                    if key in n:
+                        m[key] = n[key]
+                return m
+        return n
 
     def _collect_named(self, body):
         """Locals that merely name a sub-expression: written exactly once (initialiser or one plain assignment
